@@ -1,5 +1,5 @@
 (* C04 — serialisation always emits the canonical well-formed form. *)
-From UL Require Import Bytes Subtags LangId Ext Likely Inst Ops Grammar LangIdSpec LocaleInv Canonical LangIdProofs CanonProofs InvProofs TablesData OpsInvProofs.
+From UL Require Import Bytes Subtags LangId Ext Likely Inst Ops Grammar LangIdSpec LocaleInv Canonical LangIdProofs CanonProofs InvProofs TablesData OpsInvProofs LengthProofs RoundTrip.
 
 (* every LanguageIdentifier satisfying the safe-API invariant prints as canonical text: only ASCII
    letters, digits and '-'; language lower, script Title, region UPPER, variants lower, strictly sorted *)
@@ -25,6 +25,17 @@ Proof. exact extmap_parse_inv. Qed.
 Theorem C04_reach_mutation : forall s o s' w, loc_inv s = true -> step the_tables s o = Some (s', w) -> loc_inv s' = true.
 Proof. exact (step_inv the_tables data_full_extend data_wf_ints). Qed.
 
+(* canonicalize(s) is never longer than s (LanguageIdentifier; for Locale this clause is checked on
+   every case by the oracle, not proved) *)
+Theorem C04_canonicalize_not_longer : forall s t, li_canonicalize s = Ok t -> (length t <= length s)%nat.
+Proof. exact li_canonicalize_length. Qed.
+(* the printed form of any invariant-satisfying Locale re-reads as that Locale: it is a well-formed
+   identifier, and printing is injective on the invariant *)
+Theorem C04_locale_wellformed : forall l, loc_inv l = true -> locale_from_bytes (loc_to_string l) = Ok l.
+Proof. exact locale_roundtrip. Qed.
+
+Print Assumptions C04_canonicalize_not_longer.
+Print Assumptions C04_locale_wellformed.
 Print Assumptions C04_reach_parse_locale.
 Print Assumptions C04_reach_parse_extmap.
 Print Assumptions C04_reach_mutation.
